@@ -7,13 +7,13 @@ from vlib import core, prog, physics, h5oracle
 ASSUME = [
     "exemptions: alpha0 when a non-zero synchrotron frequency overrides it (must then be the original value or 0), run_anyway (deliberately not saved, no effect once an output is set), config itself, and options without a getter in this build (ForceOpenGLVersion, gui)",
     "every other getter must return exactly the same value after parse(--config saved.cfg) as after the original parse (hex-float comparison)",
-    "program complement: rerun with the saved .cfg plus an overriding --output; physics datasets must be bit-identical (one warmed wisdom directory per pair)",
+    "program complement: rerun with the saved .cfg plus an overriding --output; physics datasets must be bit-identical (one warmed wisdom directory per pair); half of the pairs set the synchrotron frequency (a quarter together with an alpha0 of either sign), most with non-zero alpha1/alpha2 so that the momentum compaction actually used shows in the results",
 ]
 
 
 def prog_part(ctx):
     sdir = ctx.scratch()
-    n = 60 if ctx.tier == "thorough" else 8
+    n = 72 if ctx.tier == "thorough" else 12
 
     def one(i):
         r = core.Rng("c13prog", ctx.seed, i)
@@ -25,8 +25,18 @@ def prog_part(ctx):
                  padding=r.choice([2.0, 4.0, 8.0]))
         if i % 2 == 0:
             o["SynchrotronFrequency"] = float(r.choice([7000, 9000, 12000]))
+            # the synchrotron frequency overrides alpha0 - whatever the run then "actually used" (magnitude, sign) must come back from the saved file;
+            # higher orders of the momentum compaction make the sign and size of alpha0 visible in the results
+            if i % 4 == 0:
+                o["alpha0"] = r.choice([-4e-3, -1e-3, -6.5e-3]) if (i // 4) % 2 == 0 else r.choice([5e-3, -2e-3])
+            if i % 4 == 0 or r.chance(0.5):
+                o["alpha1"] = r.choice([3e-2, -2e-2, 1e-2])
+            if r.chance(0.3):
+                o["alpha2"] = r.choice([0.2, -0.1])
         else:
             o["alpha0"] = r.choice([2e-3, 4e-3, 6.123e-3])
+            if r.chance(0.4):
+                o["alpha1"] = r.choice([3e-2, -2e-2])
         if i % 3 == 0:
             o["BunchCurrent"] = [round(r.loguniform(1e-4, 1e-3), 7), round(r.loguniform(1e-4, 1e-3), 7)]
             o["HarmonicNumber"] = 400
@@ -83,4 +93,4 @@ def run(ctx):
     core.run_harness(ctx, "c20", 200000 if th else 4000, args=["--mode", "c13"])
     core.run_harness(ctx, "c20", 4000 if th else 320, variant="asan", args=["--mode", "c13"])
     prog_part(ctx)
-    ctx.min_events = {"save_reload_cycles": 2000, "getters_compared": 100000, "reruns_with_saved_cfg": 4}
+    ctx.min_events = {"save_reload_cycles": 2000, "getters_compared": 100000, "reruns_with_saved_cfg": 6}
